@@ -8,14 +8,17 @@ import mir
 from mir import short, is_place, op_local
 
 LEVEL = 'other'
-EXPLANATION = ('Decides two necessary structural clauses of C05 (not panic-freedom as a whole). (R5a) every '
+EXPLANATION = ('Decides necessary structural clauses of C05 (not panic-freedom as a whole): R5a-R5e. (R5a) every '
                'Result<ConstrainedDecimal<C>,_>::unwrap/expect in product code is an infallibility belief; the sign of the checked '
                'expression is computed in the lattice of subsets of {-,0,+} (constants evaluated, + - * / neg abs max min by sign algebra, '
                'rounding weakens strict signs, edge refinement on is_zero/is_sign_* tests) and must be within C; generic wrappers '
                '(c_round_to_cent<T>, c_maybe_round_to_effective_cent<T>) are judged per instantiation reaching them from any call site. '
                '(R5b) the Result/Option produced by a text parser (Decimal::from_str, str::parse, Date::parse, json::parse, acb\'s own '
-               'parse_* functions, ...) whose text is not a compile-time constant never flows into unwrap/expect. Not decided: every other '
-               'panic site (map look-ups, asserts, slice indices), Decimal overflow, termination.')
+               'parse_* functions, ...) whose text is not a compile-time constant never flows into unwrap/expect. (R5c) no slice index is '
+               'bounded only by the length of a different sequence. (R5d) no assertion demands exact equality of a Decimal computed on '
+               'the spot. (R5e) the divisor of every Decimal division / remainder reachable from a front end is non-zero by type, by the '
+               'sign lattice, or by a dominating is_zero / sign test. Not decided: every other panic site (map look-ups, the other '
+               'asserts, other slice indices), Decimal overflow, termination.')
 TRUSTED_BASE = ['rustc nightly MIR construction and trait resolution', 'the ConstrainedDecimal type invariant (decided by C04/R4a)',
                 'sign algebra of rust_decimal +,-,*,/ in exact arithmetic; rounding never changes the sign but may reach zero']
 ASSUMPTIONS = ['products/quotients of strictly signed values do not underflow to zero inside the property\'s practical ranges '
@@ -143,6 +146,13 @@ class SignEval:
         # the type of the innermost ConstrainedDecimal on the access path decides
         base_ty = fn.ty.get(pl['l'], '')
         fields = [e for e in pl['p'] if isinstance(e, dict) and 'f' in e]
+        dcs = [e['dc'] for e in pl['p'] if isinstance(e, dict) and 'dc' in e]
+        if dcs and all(e.get('of', '') in ('', 'std::option::Option', 'std::result::Result') or e['of'].startswith('std::option::Option') or
+                       e['of'].startswith('std::result::Result') for e in fields) and all(d in ('Some', 'Ok') for d in dcs):
+            # the payload of an Option / Result: `((x as Ok).0 as Some).0` -> what the producer put there, under its own tests
+            s = payload_sign_local(self.prog, fn, pl['l'], tuple(dcs), depth)
+            if s:
+                return s
         if fields:
             last = fields[-1]
             fty = self.prog.field_type(last['of'], last['f'])
@@ -403,6 +413,72 @@ class SignEval:
                 else:
                     sign = sign - frozenset(sets) if pred in ('is_zero', 'is_negative', 'is_positive') else sign
         return sign
+
+
+def payload_sign_local(prog, fn, l, path, depth=0, _seen=None):
+    """sign of the Decimal found at `path` (variants, outermost first, e.g. ('Ok', 'Some')) inside the Option / Result held by
+    local l of fn; None when unknown. The value is followed to where it was built: `Ok(x)` / `Some(x)` literals (x judged at that
+    site, with the sign tests dominating it), results of functions and closures of the crate, copies and payload moves."""
+    _seen = _seen if _seen is not None else set()
+    key = (fn.name, l, path)
+    if key in _seen or depth > 40:
+        return None
+    _seen.add(key)
+    acc = frozenset()
+    defs = [d for d in fn.defs.get(l, []) if not d[3]['dst']['p']]
+    if not defs or fn.is_param(l):
+        return None
+    for (bb, idx, kind, node) in defs:
+        if kind == 'stmt':
+            r = node['r']
+            if r['rv'] == 'agg':
+                m = re.search(r'^adt:std::(?:option::Option|result::Result)::(\w+)$', r['kind'])
+                if not m:
+                    return None
+                if m.group(1) != path[0]:
+                    continue          # the other variant: contributes no payload at this path
+                x = r['ops'][0]
+                if len(path) == 1:
+                    ev = SignEval(prog, fn)
+                    ev.set_site(bb)
+                    sx = ev.eval_op(x, depth + 1)
+                    if is_place(x):
+                        sx = ev.refine(bb, x, sx)
+                    acc |= sx
+                else:
+                    if not is_place(x) or x['pl']['p']:
+                        return None
+                    sx = payload_sign_local(prog, fn, x['pl']['l'], path[1:], depth + 1, _seen)
+                    if sx is None:
+                        return None
+                    acc |= sx
+            elif r['rv'] == 'use' and is_place(r['ops'][0]):
+                pl = r['ops'][0]['pl']
+                more = tuple(e['dc'] for e in pl['p'] if isinstance(e, dict) and 'dc' in e)
+                if any(isinstance(e, dict) and 'f' in e and e.get('of', '') not in ('',) and not e['of'].startswith('std::option::Option')
+                       and not e['of'].startswith('std::result::Result') for e in pl['p']):
+                    return None
+                sx = payload_sign_local(prog, fn, pl['l'], more + path, depth + 1, _seen)
+                if sx is None:
+                    return None
+                acc |= sx
+            else:
+                return None
+        else:
+            c = fn.call_at[bb]
+            g = prog.resolve(c.callee, fn.crate) or prog.resolve(c.decl, fn.crate)
+            if g is not None and g.kind in ('Fn', 'AssocFn', 'Closure'):
+                sx = payload_sign_local(prog, g, 0, path, depth + 1, _seen)
+            elif c.short in ('branch',) and c.args and is_place(c.args[0]) and path and path[0] == 'Continue':
+                sx = payload_sign_local(prog, fn, c.args[0]['pl']['l'], ('Ok',) + path[1:], depth + 1, _seen)
+            elif c.short in ('clone', 'cloned', 'copied', 'as_ref', 'as_deref', 'into', 'from') and c.args and is_place(c.args[0]) and not c.args[0]['pl']['p']:
+                sx = payload_sign_local(prog, fn, c.args[0]['pl']['l'], path, depth + 1, _seen)
+            else:
+                sx = None
+            if sx is None:
+                return None
+            acc |= sx
+    return acc          # possibly empty: this producer never builds that variant
 
 
 def instantiations(prog, g):
@@ -711,6 +787,7 @@ def run(prog, rep, tier='quick', config='default'):
     r5b(prog, rep)
     r5c(prog, rep)
     r5d(prog, rep)
+    r5e(prog, rep, reviewed, reach=reach if config == 'default' else None, require_floor=(config != 'wasm'))
 
 
 def r5b(prog, rep, require_floor=True):
@@ -945,6 +1022,51 @@ def r5d(prog, rep, require_floor=True):
     if require_floor and n_assert < 6:
         rep.violation('R5d', 'anchor-lost:assert-sites', detail='anchor lost: only %d assertion sites recognised in product code (12 counted by hand)' % n_assert)
 
+
+
+def r5e(prog, rep, reviewed, reach=None, require_floor=True):
+    """Decimal division / remainder: `a / b` on rust_decimal::Decimal panics ("Division by zero") when b is zero. At every such
+    site reachable from a front end the divisor must be non-zero by its type (a Pos / Neg constrained decimal or its inner value),
+    by the sign lattice (a quotient / product / constant of non-zero values), or by a dominating `is_zero()` / sign test."""
+    n = 0
+    ordn = {}
+    for fn in prog.product_fns():
+        if mir.is_testsupport(fn.name):
+            continue
+        for c in fn.calls:
+            if not re.search(r'std::ops::(Div|Rem|DivAssign|RemAssign)::(div|rem|div_assign|rem_assign)$', c.decl) or len(c.args) != 2:
+                continue
+            tys = [fn.ty.get(op_local(a), '') if is_place(a) else a.get('ty', '') for a in c.args]
+            if not any('Decimal' in t for t in tys + [c.callee]):
+                continue
+            n += 1
+            owner = prog.owner_of(fn)
+            ordn[owner.name] = ordn.get(owner.name, 0) + 1
+            k = '%s|division#%d|divisor-is-not-zero' % (owner.name, ordn[owner.name])
+            if reach is not None and owner.name not in reach and fn.name not in reach:
+                rep.info('R5e', k + '|unreached', where=c.where(), fn=fn.name, detail='function is not reachable from any front end: not judged')
+                continue
+            ev = SignEval(prog, fn)
+            ev.set_site(c.bb)
+            sign = ev.eval_op(c.args[1])
+            if is_place(c.args[1]):
+                sign = ev.refine(c.bb, c.args[1], sign)
+            generic = CD_RE.search(tys[1] or '') and CD_RE.search(tys[1]).group(1) not in S
+            if ZERO not in sign:
+                rep.ok('R5e', k, where=c.where(), fn=fn.name, detail='divisor has sign %s: never zero' % sname(sign), trivial=True)
+            elif generic:
+                rep.info('R5e', k + '|generic', where=c.where(), fn=fn.name, detail='generic over the constraint: judged at the instantiations')
+            else:
+                full = 'C05|R5e|' + k
+                if full in reviewed:
+                    rep.reviewed('R5e', k, where=c.where(), fn=fn.name, detail='divisor may be zero as far as the sign lattice can tell — reviewed: ' + reviewed[full]['reason'])
+                else:
+                    rep.violation('R5e', k, where=c.where(), fn=fn.name,
+                                  detail='Decimal division by a value that can be zero (sign %s, no dominating is_zero / sign test): rust_decimal '
+                                         'panics with "Division by zero" instead of the program reporting the offending row' % sname(sign))
+    rep.extra['decimal_division_sites'] = n
+    if require_floor and n < 10:
+        rep.violation('R5e', 'anchor-lost:division-sites', detail='anchor lost: only %d Decimal division sites recognised (15 counted)' % n)
 
 
 def fixture():
